@@ -24,8 +24,8 @@ REASONS = [
  (r"get_roll_by_day$", r"panic:Option::unwrap", "K", "from_hms_opt(0,0,0)"),
  (r"calendars::calendar::ndt$", r"panic:", "R", "valid civil date supplied by callers (constants or statement's range); from_hms_opt(0,0,0) constant"),
  (r"get_imm$", r"panic:|assert:", "R", "valid (year, month); day 15..21 exists in every month"),
- (r"Cal::new::\{closure#0\}$", r"panic:Result::unwrap", "R", "week mask entries 0-6 (statement); built-in masks are [5,6] (C07 R07.2)"),
- (r"get_holidays_by_name::\{closure#0\}$", r"panic:Result::unwrap", "K", "every HOLIDAYS literal parses under the format string (C07 R07.2 checks all literals)"),
+ (r"Cal::new$", r"panic:Result::unwrap", "R", "week mask entries 0-6 (statement); built-in masks are [5,6] (C07 R07.2)"),
+ (r"get_holidays_by_name$", r"panic:Result::unwrap", "K", "every HOLIDAYS literal parses under the format string (C07 R07.2 checks all literals)"),
  (r"NamedCal::try_new$", r"ext:index", "G", "parts[0]/parts[1] behind the len()>2 / len()==1 branches; split always yields >= 1 piece"),
  (r"Dual2::try_new$", r"assert:Overflow\(Mul\)", "S", "n*n on usize lengths"),
  (r"Dual2::try_new$", r"panic:Result::unwrap", "G", "reshape behind `dual2.len() != n*n -> Err`"),
@@ -38,7 +38,7 @@ REASONS = [
  (r"FXRates::try_new$", r"assert:Overflow\(Add\)", "S", "len + 1 on usize lengths"),
  (r"FXRates::try_new$", r"ext:index", "G", "fx_rates[0] behind `fx_rates.is_empty() -> Err`"),
  (r"FXRates::update$", r"ext:index", "G", "slot index found by position() behind the contains-all guard; currencies[0] of a non-empty market"),
- (r"create_fx_array::\{closure#\d\}$", r"ext:index", "L", "vars[i] with i from enumerate over fx_rates, vars has one entry per quote"),
+ (r"create_fx_array$", r"ext:index", "L", "vars[i] with i from enumerate over fx_rates, vars has one entry per quote"),
  (r"create_initial_edges$|create_initial_fx_array$", r"panic:Option::unwrap|ext:arraytraits|assert:BoundsCheck", "I", "currencies is built from the same quote list (try_new) so get_index_of hits; indices < n"),
  (r"create_initial_fx_array$", r"panic:assert_eq!", "I", "fx_pairs and fx_rates both mapped from the same quote list"),
  (r"mut_arrays_remaining_elements(::\{closure#\d\})?$", r"assert:Overflow\(Mul\)", "S", "n*n on usize"),
@@ -46,7 +46,7 @@ REASONS = [
  (r"mut_arrays_remaining_elements(::\{closure#\d\})?$", r"ext:", "L", "indices from combinations/argmax over 0..n on n x n arrays; Axis(0)/Axis(1) exist on 2-D arrays"),
  (r"PPSpline::<T>::bsplmatrix$", r"assert:|ext:", "G", "tau[0], tau[len-1], tau[j] inside `for i in 0..n` (n >= 1) with tau.len() == n guarded by csolve"),
  (r"bspl(d?n?)ev_single_f64$", r"assert:|ext:", "I", "knot indices i..i+k with i < n = len(t) - k (PPSpline::new); k-1 / m-1 behind the k==1 / m==0 early returns"),
- (r"impl std::ops::(Add|Sub|Mul|Div)<dual::dual::Dual2?> for dual::dual::Dual2?>::\w+::\{closure#0\}$", r"ext:ArrayBase>::(add|sub|mul)|ext:impl_methods::len_of", "I", "array arithmetic on operands aligned by to_union_vars / same-Arc fast path (C03 R03.1)"),
+ (r"impl std::ops::(Add|Sub|Mul|Div)<dual::dual::Dual2?> for dual::dual::Dual2?>::\w+$", r"ext:ArrayBase>::(add|sub|mul)|ext:impl_methods::len_of", "I", "array arithmetic on operands aligned by to_union_vars / same-Arc fast path (C03 R03.1)"),
  (r"impl num_traits::Pow<f64> for dual::dual::Dual2>::pow$|Signed for dual::dual::Dual2?>::abs$|MathFuncs for dual::dual::Dual2?>::\w+$", r"ext:ArrayBase>::(add|sub|mul)", "I", "arrays derived from one number (same shape)"),
  (r"From<dual::dual::Dual> for dual::dual::Dual2>::from$", r"ext:impl_methods::len_of", "K", "Axis(0) of a 1-D array"),
  (r"dual::enums::Number", r"panic:panic!", "U", "mixed Dual/Dual2 arms of Number operators: Number is never a type argument of a generic solver/fill-in (R20.4)"),
@@ -59,9 +59,14 @@ def main():
     out, unmatched = [], []
     for fam, members in sorted(fams.items()):
         kinds = {}
+        roots = {}
         for name, per in members:
+            rt = roots.setdefault(cc.root_of(name), {})
             for k, ss in per.items():
-                ctr = [s["ctrl"] for s in ss]
+                rt.setdefault(k, []).extend(s["ctrl"] for s in ss)
+        for rt in roots.values():
+            for k, ctr in rt.items():
+                ctr = sorted(ctr)
                 if k in kinds and kinds[k] != ctr:
                     # variants disagree: keep the elementwise minimum / max count
                     a = kinds[k]
